@@ -1,8 +1,10 @@
 """C04 — factory-generated resources are per-context singletons of the requesting context."""
+from ..core import Composite
 from ..kernel_prop import KernelProp
+from .c18 import C18NoneProduct
 
 
-class C04(KernelProp):
+class C04Kernel(KernelProp):
     id = "C04"
     tags = ("C04",)
     quick_cases = 800
@@ -30,6 +32,22 @@ class C04(KernelProp):
             if gen_at is not None and op["op"] == "new" and i > gen_at:
                 return True
         return False
+
+
+class C04NoneProduct(C18NoneProduct):
+    """A factory whose product is `None`: still called once per context, however often and through whichever API the
+    resource is looked up afterwards. (Observed directly: in the kernel model every product has an identity.)"""
+    id = "C04"
+    tags = ("C04",)
+
+
+class C04(Composite):
+    id = "C04"
+    quick_cases = C04Kernel.quick_cases
+    thorough_cases = C04Kernel.thorough_cases
+    parts = [(15, C04Kernel()), (1, C04NoneProduct())]
+    rule = C04Kernel.rule + "; one case in sixteen has a factory whose product is None, looked up 2-5 times: one call"
+    assumptions = C04Kernel.assumptions
 
 
 PROP = C04()
